@@ -206,6 +206,15 @@ fn vs_write(vs: &VolatileSlice<'_, ()>, op: u64, src: &[u8]) -> Option<usize> {
             a.copy_from(src);
             Some(total)
         }
+        11 | 13 => {
+            vs.copy_from::<u8>(src);
+            Some(src.len().min(vs.len()))
+        }
+        12 | 14 => {
+            let a: VolatileArrayRef<'_, u8, ()> = vs.get_array_ref::<u8>(0, vs.len()).unwrap();
+            a.copy_from(src);
+            Some(src.len().min(vs.len()))
+        }
         3 => {
             let mut s: &[u8] = src;
             ok_n(s.read_volatile(&mut vs.clone()))
@@ -225,6 +234,11 @@ fn vs_read(vs: &VolatileSlice<'_, ()>, op: u64, dst: &mut [u8], prefix: usize, o
         1 => Some(vs.copy_to::<u8>(dst)),
         2 => {
             let a: VolatileArrayRef<'_, u8, ()> = vs.get_array_ref::<u8>(0, total).unwrap();
+            Some(a.copy_to(dst))
+        }
+        11 | 13 => Some(vs.copy_to::<u8>(dst)),
+        12 | 14 => {
+            let a: VolatileArrayRef<'_, u8, ()> = vs.get_array_ref::<u8>(0, vs.len()).unwrap();
             Some(a.copy_to(dst))
         }
         3 => {
@@ -256,6 +270,10 @@ fn flags_of(level: u64, op: u64, read: bool) -> Option<u64> {
         (0..=2, 4, _) => Some(r | F_UNCTL | F_INT),
         (0..=2, 9 | 10, true) => Some(r | F_UNCTL),
         (3, 1 | 2 | 3 | 4 | 6, _) => Some(r),
+        // 11/12: copy_from/copy_to::<u8> and the u8 array route with a LOCAL buffer 5 bytes longer than the guest
+        // container; 13/14: the same with a guest CONTAINER 5 bytes longer than the local buffer (the transfer is
+        // the shorter of the two = total in all four)
+        (3, 11 | 12 | 13 | 14, _) => Some(r),
         (3, 5, true) => Some(r | F_UNCTL),
         _ => None,
     }
@@ -286,6 +304,9 @@ fn exec(case: &[Tok]) -> Vec<Tok> {
         || (flags & F_INT != 0 && ![1, 2, 4, 8].contains(&total))
         || (unctl && op <= 4 && level <= 2 && total > 16)
     {
+        return bad();
+    }
+    if level == 3 && (op == 13 || op == 14) && goff + total + 5 > GSIZE {
         return bad();
     }
     WORLD.with(|w| run_case(w, level, op, read, unctl, goff, loff, total))
@@ -339,12 +360,16 @@ fn run_case(w: &World, level: u64, op: u64, read: bool, unctl: bool, goff: usize
                 }
             }
             3 => {
-                // SAFETY: goff + total <= GSIZE was checked by the caller
-                let vs = unsafe { VolatileSlice::new(w.arena.add(goff), total) };
+                // SAFETY: goff + total (+ 5 for ops 13/14) <= GSIZE was checked by the caller
+                let glen = if op == 13 || op == 14 { total + 5 } else { total };
+                let vs = unsafe { VolatileSlice::new(w.arena.add(goff), glen) };
+                // ops 11/12: the local buffer is 5 bytes longer than the guest container (inside the local block)
+                let llen = if op == 11 || op == 12 { total + 5 } else { total };
+                let lslice: &mut [u8] = unsafe { std::slice::from_raw_parts_mut(lptr, llen) };
                 if read {
-                    vs_read(&vs, op, lslice, loff, &mut out)
+                    vs_read(&vs, op, lslice, loff, &mut out).map(|k| k)
                 } else {
-                    vs_write(&vs, op, lslice)
+                    vs_write(&vs, op, lslice).map(|k| k.min(total))
                 }
             }
             _ => panic!("bad level"),
@@ -416,7 +441,7 @@ fn ep_code(level: u64, op: u64, read: bool) -> Option<u64> {
 fn all_eps() -> Vec<u64> {
     let mut v = Vec::new();
     for level in 0..=3u64 {
-        for op in 1..=10u64 {
+        for op in 1..=14u64 {
             for read in [false, true] {
                 if let Some(e) = ep_code(level, op, read) {
                     v.push(e);
@@ -474,6 +499,9 @@ fn gen(rng: &mut Rng, tier: Tier, emit: &mut dyn FnMut(Vec<Tok>)) {
             _ => rng.below((GSIZE - total) as u64 + 1) as usize,
         };
         let goff = goff.min(GSIZE - total).min(GSIZE - 1);
+        // ops 13/14 of level 3 use a guest container 5 bytes longer than the transfer
+        let long_container = (ep >> 12) == 3 && matches!((ep >> 4) & 0xff, 13 | 14);
+        let goff = if long_container { goff.min(GSIZE - total - 5) } else { goff };
         emit(vec![n(mode), n(ep), us(goff), us(rng.below(64) as usize), us(total)]);
     }
 }
